@@ -25,7 +25,7 @@ SHARDS = {"quick": 8, "thorough": 16}
 TIMEOUT = {"quick": 900, "thorough": 3400}
 OP = "sync_properties"
 RULE = (
-    "generated pairs of modules (gen_py.gen_module) x addressable locations (module-level annotated assignment, class "
+    "a third of the calls address an input setting named like the output argument (value-carrying reference accepted for the addressed argument only); generated pairs of modules (gen_py.gen_module) x addressable locations (module-level annotated assignment, class "
     "attribute, function argument, method argument, keyword-only argument) chosen in both files, 1..3 pairs per call, "
     "with/without wrap template, eval mode on module-level tuples, plus unresolvable addresses; one evaluation = one "
     "sync_properties call on real files; the expected output tree is built by an independent reference replacement; "
